@@ -72,8 +72,28 @@ impl Snap {
             info_step_length: solver.info.step_length,
         }
     }
+    /// numeric comparison (IEEE equality, so +0 == -0; NaN == NaN) of everything
+    /// except solve_time.  Used where the two executions are not the *same call*
+    /// (a re-solve, an updated vs a rebuilt solver): stale work buffers can flip
+    /// the sign of a zero (0*stale), which no property forbids.
+    pub fn diff_numeric(&self, other: &Snap) -> Option<String> {
+        self.diff_impl(other, false)
+    }
     /// bitwise comparison of everything except solve_time; returns the first difference
     pub fn diff_bitwise(&self, other: &Snap) -> Option<String> {
+        self.diff_impl(other, true)
+    }
+    fn diff_impl(&self, other: &Snap, strict: bool) -> Option<String> {
+        let same = |a: f64, b: f64| -> bool {
+            if a.is_nan() && b.is_nan() {
+                return true;
+            }
+            if strict {
+                a.to_bits() == b.to_bits()
+            } else {
+                a == b
+            }
+        };
         if self.status != other.status {
             return Some(format!("status {:?} vs {:?}", self.status, other.status));
         }
@@ -90,7 +110,7 @@ impl Snap {
             ("r_dual", self.r_dual, other.r_dual),
         ];
         for (n, a, b) in sc {
-            if a.to_bits() != b.to_bits() && !(a.is_nan() && b.is_nan()) {
+            if !same(a, b) {
                 return Some(format!("{} {:e} vs {:e}", n, a, b));
             }
         }
@@ -103,7 +123,7 @@ impl Snap {
                 return Some(format!("len({}) {} vs {}", n, a.len(), b.len()));
             }
             for i in 0..a.len() {
-                if a[i].to_bits() != b[i].to_bits() && !(a[i].is_nan() && b[i].is_nan()) {
+                if !same(a[i], b[i]) {
                     return Some(format!("{}[{}] {:e} vs {:e}", n, i, a[i], b[i]));
                 }
             }
